@@ -75,12 +75,65 @@ def correspondence(run):
     return ok
 
 
+_FRESH_EVAL = r"""
+import sys, json, types, importlib
+spec = json.load(sys.stdin)
+for m in spec["imports"]:
+    try:
+        importlib.import_module(m)
+    except Exception:
+        pass
+out = {}
+for full in spec["chains"]:
+    cur = sys.modules.get(full[0])
+    if cur is None:
+        out[".".join(full)] = "module %s is not imported by the package" % full[0]
+        continue
+    for i, a in enumerate(full[1:]):
+        try:
+            cur = getattr(cur, a)
+        except Exception as e:
+            out[".".join(full)] = "%s: %s" % (type(e).__name__, e)
+            break
+        if not isinstance(cur, types.ModuleType):
+            break      # attributes of non-module objects are not resolved further
+import inspect
+for full, kw in spec.get("kwcalls", []):
+    cur = sys.modules.get(full[0])
+    try:
+        for a in full[1:]:
+            cur = getattr(cur, a)
+        sg = inspect.signature(cur)
+    except Exception:
+        continue                      # unresolvable (reported as a reference) or not introspectable (not decided)
+    try:
+        sg.bind_partial(**{kw: None})   # Python's own argument binding
+    except TypeError as e:
+        out[".".join(full) + "(" + kw + "=)"] = "TypeError: %s; installed signature %s" % (e, sg)
+json.dump(out, sys.stdout)
+"""
+
+
+def _fresh_eval(imports, chains, kwcalls=()):
+    import json as _json
+    import subprocess
+    p = subprocess.run([sys.executable, "-W", "ignore", "-c", _FRESH_EVAL],
+                       input=_json.dumps({"imports": imports, "chains": [list(c) for c in chains],
+                                          "kwcalls": [[list(f), k] for f, k in kwcalls]}),
+                       capture_output=True, text=True, timeout=600)
+    if p.returncode != 0:
+        raise RuntimeError("fresh-interpreter evaluation failed: " + p.stderr[-300:])
+    return _json.loads(p.stdout)
+
+
 def unresolved(run):
     """re-evaluate every unguarded reference of the regenerated table on the real environment"""
     sys.path.insert(0, os.path.join(fw.VERIF, "harness"))
     from extract import refs as ex
     import ast
     bad = []
+    pending = []
+    pending_kw = []
     pkg = os.path.join(fw.REPO, "pyrex")
     n = 0
     seen = set()
@@ -108,6 +161,10 @@ def unresolved(run):
                 if not g and top not in ex.OPTIONAL and top not in ex.STDLIB and top.lower() not in declared:
                     bad.append({"file": rel, "line": ln, "expr": "import " + m,
                                 "why": "is neither standard library nor declared in install_requires (%s)" % sorted(declared)})
+            for rootp, chain, kws, line, g in v.kwcalls:
+                if not g and ex.is_external(rootp) and rootp.split(".")[0] not in ex.OPTIONAL:
+                    for kw in kws:
+                        pending_kw.append((rel, line, rootp.split(".") + list(chain), kw))
             items = [(r, ch, ln, g) for r, ch, ln, g in v.refs] + \
                     [(m, [nm], ln, g) for m, nm, ln, g in v.from_imports if nm != "*"]
             for rootp, chain, line, g in items:
@@ -122,25 +179,40 @@ def unresolved(run):
                         bad.append({"file": rel, "line": line, "expr": "<ndarray>." + chain[0],
                                     "why": "is not an attribute of numpy.ndarray in the installed numpy"})
                     continue
-                mobj, mpath, rest = ex.resolve_module(rootp)
-                cur = mobj
-                okk = cur is not None
-                for a in rest + chain:
-                    if not okk:
-                        break
-                    if hasattr(cur, a):
-                        cur = getattr(cur, a)
-                    else:
-                        try:
-                            cur = importlib.import_module(cur.__name__ + "." + a)
-                        except Exception:
-                            okk = False
-                    if not isinstance(cur, type(os)):
-                        break   # attributes of non-module objects are not statically resolved further
-                if not okk:
-                    bad.append({"file": rel, "line": line, "expr": expr})
-                elif (mpath, (rest + chain)[0] if (rest + chain) else "") in ex.TOO_NEW:
+                pending.append((rel, line, expr, rootp.split(".") + list(chain)))
+    # evaluate every chain by plain attribute access in a FRESH interpreter that has executed the package's own external
+    # imports (a sub-module nobody imported is not an attribute of its parent there, whatever this process has loaded)
+    ext = set()
+    for root, dirs, fs in os.walk(pkg):
+        for f in fs:
+            if f.endswith(".py"):
+                try:
+                    v2 = ex.FileRefs(f); v2.visit(ast.parse(open(os.path.join(root, f)).read()))
+                except Exception:
+                    continue
+                for m, ln, g in v2.imports:
+                    if ex.is_external(m) and m.split(".")[0] not in ex.OPTIONAL:
+                        ext.add(m)
+                for m, nm, ln, g in v2.from_imports:
+                    if ex.is_external(m) and m.split(".")[0] not in ex.OPTIONAL:
+                        ext.add(m)
+    verdicts = _fresh_eval(sorted(ext), sorted({tuple(p[3]) for p in pending}))
+    for rel, line, expr, full in pending:
+        why = verdicts.get(".".join(full))
+        if why:
+            bad.append({"file": rel, "line": line, "expr": expr, "why": "fails in a fresh interpreter: " + why})
+        else:
+            for k in range(1, len(full)):
+                if (".".join(full[:k]), full[k]) in ex.TOO_NEW:
                     bad.append({"file": rel, "line": line, "expr": expr, "why": "newer than the declared minimum version"})
+                    break
+    kwv = _fresh_eval(sorted(ext), [], kwcalls=sorted({(tuple(f), k) for _, _, f, k in pending_kw}))
+    for rel, line, full, kw in pending_kw:
+        why = kwv.get(".".join(full) + "(" + kw + "=)")
+        if why:
+            bad.append({"file": rel, "line": line, "expr": ".".join(full) + "(" + kw + "=...)",
+                        "why": "passes a keyword the installed callable does not accept: " + why})
+    run.extra["keyword_arguments_checked"] = len(pending_kw)
     run.extra["unguarded_references"] = n
     run.extra["distinct_reference_expressions"] = len(seen)
     return bad
